@@ -492,6 +492,7 @@ func init() {
 				{P: P("S3", 165, 2, 3, 0, 1, false), Deadline: sec(300), Need: []string{"TruncatedDeltas"}},
 				{P: P("S3", 210, 2, 3, 0, 1, false), Deadline: sec(300)},
 				{P: P("S5", 130, 3, 4, 0, 2, false), Deadline: sec(300), Need: []string{"TruncatedDigests"}},
+				{P: P("S8", 1400, 4, 4, 0, 2, false), Deadline: sec(300), Need: []string{"LeavesSeen"}},
 			}
 		}
 		runGossip(run, "C13", jobs)
